@@ -104,7 +104,8 @@ ht2mjd(const unsigned int *cal, size_t nm, struct ymd_s h)
 {
 	const unsigned int i = (h.y - 1U) * 12U + (h.m - 1U) - SM(cal);
 
-	if (UNLIKELY(i >= nm)) {
+	if (UNLIKELY(i + 1U >= nm)) {
+		/* the last entry only marks the end of the last month */
 		return 0U;
 	}
 	return MT(cal)[i] + (h.d - 1U);
@@ -370,9 +371,17 @@ echs_instant_rescale(echs_instant_t i, echs_scale_t tgt)
 			break;
 		case SCALE_HIJRI_UMMULQURA:
 			d = ht2mjd(dat_ummulqura, NM(dat_ummulqura), ymp);
+			if (UNLIKELY(!d)) {
+				/* outside the table */
+				goto nul;
+			}
 			break;
 		case SCALE_HIJRI_DIYANET:
 			d = ht2mjd(dat_diyanet, NM(dat_diyanet), ymp);
+			if (UNLIKELY(!d)) {
+				/* outside the table */
+				goto nul;
+			}
 			break;
 		default:
 			goto nul;
